@@ -32,11 +32,14 @@ theorem tie_guards (isLoopThread calling looping : Bool) :
 
 /-- the statement order the model takes for granted: append under the lock before the wake-up test; the batch is
 swapped out (queue left empty) under the lock with `callingPendingFunctors_` set before and cleared after the run;
-every iteration ends with a drain; one more drain follows the `while`; `looping_` brackets the `while` -/
+every iteration ends with a drain; one more drain follows the `while`; `looping_` brackets the `while`; `wakeup()`
+writes a whole non-zero counter value to the eventfd and `handleRead()` reads it back -/
 theorem tie_shape :
     appendUnderLock = true ∧ drainSwaps = true ∧ callingSetBeforeSwap = true ∧ callingResetAfterRun = true ∧
-    drainEachIteration = true ∧ finalDrain = true ∧ loopingBracket = true :=
-  ⟨shape_tie.2.2.2, drainSwaps_tie, shape_tie.2.2.1, callingResetAfterRun_tie, shape_tie.1, finalDrain_tie, shape_tie.2.1⟩
+    drainEachIteration = true ∧ finalDrain = true ∧ loopingBracket = true ∧
+    wakeupWritesOne = true ∧ handleReadDrains = true :=
+  ⟨shape_tie.2.2.2, drainSwaps_tie, shape_tie.2.2.1, callingResetAfterRun_tie, shape_tie.1, finalDrain_tie, shape_tie.2.1,
+   eventfd_tie.1, eventfd_tie.2⟩
 
 /-! ## exactly once, in submission order, on the loop thread -/
 
